@@ -104,6 +104,9 @@ type PeerParts struct {
 	Allocator ipfscluster.PinAllocator
 	Informers []ipfscluster.Informer
 	BaseDir   string
+	// DHT, when set, is used instead of creating one (a consensus component
+	// built beforehand may already own the host's DHT).
+	DHT *dual.DHT
 }
 
 // Peer is a running real Cluster peer and handles on its parts.
@@ -173,10 +176,14 @@ func NewPeer(ctx context.Context, p *PeerParts) (*Peer, error) {
 	if len(p.Informers) == 0 {
 		p.Informers = []ipfscluster.Informer{&Inf{MetricName: "freespace", TTL: 30 * time.Second}}
 	}
-	dht, err := dual.New(ctx, p.Host)
-	if err != nil {
-		cancel()
-		return nil, err
+	dht := p.DHT
+	if dht == nil {
+		var err error
+		dht, err = dual.New(ctx, p.Host)
+		if err != nil {
+			cancel()
+			return nil, err
+		}
 	}
 	capi := &CaptureAPI{}
 	c, err := ipfscluster.NewCluster(ctx, p.Host, dht, cfg, p.Store, p.Consensus, []ipfscluster.API{capi},
